@@ -106,7 +106,7 @@ def render_ovf(body, rng, style):
     x = [f'<?xml version="1.0" encoding="UTF-8"?>',
          f'<{po}:Envelope xmlns:{po}="{OVF_NS["ovf"]}" xmlns:{pr}="{OVF_NS["rasd"]}" xmlns:vssd="{OVF_NS["vssd"]}">',
          f'<{po}:References>'] + [f'<{po}:File {po}:href="{href[k]}" {po}:id="{fid[k]}" {po}:size="1024"/>' for k in (1, 2)] + [f'</{po}:References>',
-         f'<{po}:DiskSection><{po}:Info>disks</{po}:Info>'] + [f'<{po}:Disk {po}:capacity="8" {po}:diskId="{did[k]}" {po}:fileRef="{fid[fm[k]]}"/>' for k in (1, 2)] + [f'</{po}:DiskSection>',
+         ] + _disk_section(body, style, po, did, fid, fm) + [
          f'<{po}:VirtualSystem {po}:id="vm"><{po}:Info>vm</{po}:Info><{po}:VirtualHardwareSection><{po}:Info>hw</{po}:Info>',
          f'<{po}:Item><{pr}:ElementName>cpu</{pr}:ElementName><{pr}:InstanceID>1</{pr}:InstanceID><{pr}:ResourceType>3</{pr}:ResourceType></{po}:Item>']
     items = body["items"]
@@ -119,6 +119,15 @@ def render_ovf(body, rng, style):
     x.append(f'<{po}:Item><{pr}:ElementName>net</{pr}:ElementName><{pr}:InstanceID>99</{pr}:InstanceID><{pr}:ResourceType>10</{pr}:ResourceType></{po}:Item>')
     x.append(f'</{po}:VirtualHardwareSection></{po}:VirtualSystem></{po}:Envelope>')
     return ("\n" if style.get("nl", True) else "").join(x), href
+
+
+def _disk_section(body, style, po, did, fid, fm):
+    items = body["items"] if isinstance(body["items"], list) else list(body["items"].values())
+    direct = all(it["kind"] == "file" for it in items)    # every item names a file directly: the disk section is not consulted
+    if direct and style.get("disksection") == "absent":
+        return []
+    disks = [] if (direct and style.get("disksection") == "empty") else [f'<{po}:Disk {po}:capacity="8" {po}:diskId="{did[k]}" {po}:fileRef="{fid[fm[k]]}"/>' for k in (1, 2)]
+    return [f'<{po}:DiskSection><{po}:Info>disks</{po}:Info>'] + disks + [f'</{po}:DiskSection>']
 
 
 def render_vbox(body, rng, style):
@@ -188,7 +197,34 @@ VMX_STYLES = [
     {"case": "asis", "typecase": "asis", "shuffle": True, "comments": False, "spacing": False, "quotes": "all", "crlf": False, "aba": True},
 ]
 OVF_STYLES = [{"ids": "plain"}, {"ids": "alphabet", "po": "o", "pr": "r"}, {"ids": "alphabet", "po": "ovf", "pr": "rasd", "nl": False},
-              {"ids": "words"}, {"ids": "words2", "po": "disk", "pr": "file"}, {"ids": "case"}]
+              {"ids": "words"}, {"ids": "words2", "po": "disk", "pr": "file"}, {"ids": "case"},
+              # the same document spelled differently; a DiskSection that is empty / absent where every item names a file directly
+              {"ids": "plain", "xml": "squote"}, {"ids": "words", "xml": "comments"}, {"ids": "plain", "xml": "default-ns", "disksection": "empty"},
+              {"ids": "case", "xml": "tagspace", "disksection": "absent"}]
+VBOX_STYLES = [{}, {"attr_order": True}, {"xml": "squote"}, {"xml": "prefix", "attr_order": True}, {"xml": "comments"}, {"xml": "tagspace"}]
+PVS_STYLES = [{}, {"xml": "squote"}, {"xml": "comments"}, {"xml": "tagspace"}]
+
+
+def respell(text, mode, rng):
+    """The same XML document spelled differently (same elements, attributes and text for an XML parser): attribute values in
+    single quotes, the default namespace bound to a prefix (or a prefix replaced by the default namespace), comments and
+    processing instructions between elements, blanks inside tags."""
+    import re
+    if mode == "squote":
+        return re.sub(r'="([^"\']*)"', r"='\1'", text)
+    if mode == "comments":
+        return re.sub(r">(\s*)<(?=[A-Za-z/])", lambda m: ">" + m.group(1) + (rng.choice(["<!-- <HardDisk location='c.vdi' format='VDI' type='Normal'/> -->", "<?pi x?>", "<!---->", "", "", ""])) + "<", text)
+    if mode == "tagspace":
+        return re.sub(r"(?<![?\-\s/])(\s*)(/?)>", lambda m: rng.choice(["", " ", "\n", "\t "]) + m.group(2) + ">", re.sub(r'(?<=") (?=[A-Za-z:]+=)', lambda m: rng.choice([" ", "  ", "\n    "]), text))
+    if mode == "prefix":      # <VirtualBox xmlns="ns"> ... -> <vb:VirtualBox xmlns:vb="ns"> ...
+        m = re.search(r' xmlns="([^"]*)"', text)
+        body = re.sub(r"<(/?)([A-Za-z_][\w.-]*)(?=[\s/>])", r"<\1vb:\2", text)
+        return body.replace(m.group(0), f' xmlns:vb="{m.group(1)}"', 1)
+    if mode == "default-ns":  # <ovf:Envelope xmlns:ovf="ns"> ... -> <Envelope xmlns="ns" xmlns:ovf="ns"> ... (attributes keep their prefix)
+        m = re.search(r' xmlns:ovf="([^"]*)"', text)
+        body = re.sub(r"<(/?)ovf:", r"<\1", text)
+        return body.replace(m.group(0), f' xmlns="{m.group(1)}"' + m.group(0), 1)
+    raise core.MachineryError(f"unknown respelling {mode}")
 
 
 def observe(kind, body, rng, style, history=None):
@@ -204,14 +240,20 @@ def observe(kind, body, rng, style, history=None):
     elif kind == "ovf":
         from dissect.hypervisor.descriptor.ovf import OVF
         text, names = render_ovf(body, rng, style)
+        if style.get("xml"):
+            text = respell(text, style["xml"], rng)
         obj = OVF(io.StringIO(text))
     elif kind == "vbox":
         from dissect.hypervisor.descriptor.vbox import VBox
         text, names = render_vbox(body, rng, style)
+        if style.get("xml"):
+            text = respell(text, style["xml"], rng)
         obj = VBox(io.StringIO(text))
     else:
         from dissect.hypervisor.descriptor.pvs import PVS
         text, names = render_pvs(body, rng, style)
+        if style.get("xml"):
+            text = respell(text, style["xml"], rng)
         obj = PVS(io.StringIO(text))
     # another configuration with the same identifiers but other file names is parsed (and listed) in between: objects
     # must not share state
@@ -250,8 +292,8 @@ def run(ctx):
                 "configuration containing at least one non-disk device or noise element next to a disk; distinct by (config, style)")
     ctx.assumptions = ["renderers are independent of the package under test", "the OVF/VBox filters named in the property's mechanisms define 'hard disk'"]
     plan = [("vmx", "VmConfig_Vmx.cfg", VMX_STYLES, 3 if not thorough else 1), ("ovf", "VmConfig_Ovf3.cfg" if thorough else "VmConfig_Ovf.cfg", OVF_STYLES, 1),
-            ("vbox", "VmConfig_Vbox3.cfg" if thorough else "VmConfig_Vbox.cfg", [{}, {"attr_order": True}], 1 if not thorough else 8),
-            ("pvs", "VmConfig_Pvs3.cfg" if thorough else "VmConfig_Pvs.cfg", [{}], 1)]
+            ("vbox", "VmConfig_Vbox3.cfg" if thorough else "VmConfig_Vbox.cfg", VBOX_STYLES, 1 if not thorough else 8),
+            ("pvs", "VmConfig_Pvs3.cfg" if thorough else "VmConfig_Pvs.cfg", PVS_STYLES, 1)]
     for kind, cfg, styles, sel in plan:
         sts = diskprop.dump_states(ctx, "VmConfig", cfg)
         rng0 = random.Random(ctx.seed + 18)
@@ -316,13 +358,13 @@ def random_configs(ctx, rng, n):
                 body = [{"format": rng.choice(["VDI", "vdi", "Vdi", "VMDK", "VHD"]), "type": rng.choice(["Normal", "Normal", "Immutable", "Writethrough", "absent"]),
                          "loc": rng.random() < 0.85, "nested": rng.random() < 0.4} for _ in range(rng.randrange(0, 8))]
                 hist = []
-                got, locs, _ = observe("vbox", body, rng, rng.choice([{}, {"attr_order": True}]), hist)
+                got, locs, _ = observe("vbox", body, rng, rng.choice(VBOX_STYLES), hist)
                 inv = {v: k for k, v in locs.items()}
                 conv = lambda l: [inv[g] for g in l]  # noqa: E731
             else:
                 body = [{"kind": rng.choice(["Hdd", "Hdd", "CdRom", "Fdd"]), "sysname": rng.random() < 0.8} for _ in range(rng.randrange(0, 8))]
                 hist = []
-                got, names, _ = observe("pvs", body, rng, {}, hist)
+                got, names, _ = observe("pvs", body, rng, rng.choice(PVS_STYLES), hist)
                 inv = {v: k for k, v in names.items()}
                 conv = lambda l: [inv[g] for g in l]  # noqa: E731
             reported, peek, again = conv(got), conv(hist[0][1]), conv(hist[1][1])
